@@ -1,6 +1,8 @@
 import PfModel.DriverVal
 import PfModel.Model.ResumeFS
 import PfModel.Model.ResumePar
+import PfModel.Model.ResumeParFail
+import PfModel.Model.ResumeKey
 /-! Driver for C05: `map.run_on` (the resumable runner on a given folder state), `map.events` (event list of a run into an
     empty folder), `map.resume` (crash the fresh run after `crash` events, then run again on what is left). -/
 open Lean PF PF.Drv PF.Map PF.ResumeFS
@@ -116,6 +118,12 @@ def permSched (orders : List (List Nat)) : Sched := fun g bs pe =>
     else bs.flatten ++ pe
   | none => bs.flatten ++ pe
 
+/-- `[[key, val], …]` → `KDict` -/
+def getKDict (j : Json) : R PF.ResumeKey.KDict := asList (asPair (asList asNat) getVal) j
+def putKDict (d : PF.ResumeKey.KDict) : Json := jList (jPair (jList jNat) putVal) d
+def getCells (j : Json) : R (List (Nat × Val)) := asList (asPair asNat getVal) j
+def putCells (c : List (Nat × Val)) : Json := jList (jPair jNat putVal) c
+
 def handle (m : String) (a : Json) : R Json := do
   match m with
   | "map.run_on" =>
@@ -127,6 +135,15 @@ def handle (m : String) (a : Json) : R Json := do
     let q ← getReq a
     let orders ← listF (asList asNat) a "orders"
     return putRun (runOnP q.cfg (permSched orders) FS.empty q.fsd q.inputs q.internal)
+  | "map.par_fail_events" =>
+    -- the pool runner on a folder state (default: empty) when the user call `cfg.fail_at` (global SUBMISSION index) raises:
+    -- bodies of generation g in the order `orders[g]`; in the failing generation `orders[g]` lists the bodies that ran
+    let q ← getReq a
+    let orders ← listF (asList asNat) a "orders"
+    let fs ← match fld? a "fs" with
+      | some j => getFS j
+      | none => pure FS.empty
+    return putRun (runOnPF q.cfg (permSched orders) (pickSched orders) fs q.fsd q.inputs q.internal)
   | "map.events" =>
     let q ← getReq a
     return putRun (runFresh q.cfg q.fsd q.inputs q.internal)
@@ -138,6 +155,28 @@ def handle (m : String) (a : Json) : R Json := do
     let fs := crashAt FS.empty fresh.evs k
     let again := runOn q.cfg fs q.fsd q.inputs q.internal
     return jObj [("n_events", jNat fresh.evs.length), ("resumed", putRun again)]
+  | "key.of_index" =>
+    -- `_shape_to_key(shape, li)` / `np.unravel_index(li, shape)`
+    return jList jNat (shapeToKey (← listF asNat a "shape") (← natF a "li"))
+  | "key.file_of" =>
+    -- `FileArray._key_to_file(key)`: the number in the file name
+    return jNat (PF.ResumeKey.fileOfKey (← listF asNat a "shape") (← listF asNat a "key"))
+  | "dict.store" =>
+    -- the dict (insertion order) and the files after dumping `cells` in order, each under the key of its linear index
+    let shape ← listF asNat a "shape"
+    let cells ← getCells (← fld a "cells")
+    return jObj [("dict", putKDict (PF.ResumeKey.kStore shape cells)), ("files", putCells (PF.ResumeKey.fStore shape cells))]
+  | "dict.view" =>
+    -- what a resumed run sees of a persisted dict, by linear index
+    let shape ← listF asNat a "shape"
+    let d ← getKDict (← fld a "dict")
+    let n := prod shape
+    return jObj [("has", jList jBool ((List.range n).map (PF.ResumeKey.kHasIndex shape d))),
+                 -- `[v]` = the value, `[]` = KeyError (a stored `None` is `[null]`)
+                 ("get", jList (fun o => jList putVal o.toList) ((List.range n).map (PF.ResumeKey.kGetFromIndex shape d))),
+                 ("mask", jList jBool (PF.ResumeKey.kMaskLinear shape d)),
+                 ("cells", putCells (PF.ResumeKey.kLoadCells shape d)),
+                 ("sorted", jList putVal (PF.ResumeKey.sortedValues d))]
   | _ => .error s!"unknown entry {m}"
 
 def main : IO Unit := loop handle
